@@ -5,6 +5,10 @@ pub mod c03;
 pub mod c04;
 pub mod c05;
 pub mod c06;
+pub mod c12;
+pub mod c13;
+pub mod c14;
+pub mod c20;
 
 use crate::run::Prop;
 
@@ -16,6 +20,10 @@ pub fn by_id(id: &str) -> Option<&'static dyn Prop> {
         "C04" => &c04::C04,
         "C05" => &c05::C05,
         "C06" => &c06::C06,
+        "C12" => &c12::C12,
+        "C13" => &c13::C13,
+        "C14" => &c14::C14,
+        "C20" => &c20::C20,
         _ => return None,
     })
 }
